@@ -36,17 +36,80 @@ def micro_prim_jobs():
     return J
 
 
+MM_C = 'lang/c/minimessage/MiniMessage.c'
+MM_PRE = r"""
+#include <string.h>
+#include "lang/c/minimessage/MiniMessage.h"
+unsigned int mv_k;              /* ghost byte index, chosen by the harness */
+unsigned long mv_outsize;       /* ghost: size of the output buffer of this call */
+#define MV_MAXBLK 16            /* every call site in MiniMessage.c passes sizeof(uint32) or sizeof(a scalar) */
+"""
+# (function, contract text placed before the real file, harness body, bound text or None)
+MM_LEAVES = [
+    ('ReadData', r"""
+static c_status_t ReadData(const uint8 * inBuf, uint32 inputBufferBytes, uint32 * readOffset, void * copyTo, uint32 blockSize)
+__CPROVER_requires(blockSize <= MV_MAXBLK && inputBufferBytes <= 0xFFFFFFFFu - MV_MAXBLK)
+__CPROVER_requires(__CPROVER_is_fresh(inBuf, inputBufferBytes) && __CPROVER_is_fresh(readOffset, sizeof(uint32)) && __CPROVER_is_fresh(copyTo, blockSize))
+__CPROVER_requires(*readOffset <= inputBufferBytes)
+__CPROVER_assigns(*readOffset, __CPROVER_object_upto(copyTo, blockSize))
+__CPROVER_ensures((__CPROVER_return_value == CB_NO_ERROR) == ((unsigned long)__CPROVER_old(*readOffset) + blockSize <= (unsigned long)inputBufferBytes))
+__CPROVER_ensures(__CPROVER_return_value == CB_NO_ERROR || __CPROVER_return_value == CB_ERROR)
+__CPROVER_ensures(__CPROVER_return_value == CB_NO_ERROR ==> *readOffset == __CPROVER_old(*readOffset) + blockSize)
+__CPROVER_ensures(__CPROVER_return_value != CB_NO_ERROR ==> *readOffset == __CPROVER_old(*readOffset))
+__CPROVER_ensures((__CPROVER_return_value == CB_NO_ERROR && mv_k < blockSize) ==> ((const uint8 *)copyTo)[mv_k] == inBuf[__CPROVER_old(*readOffset) + mv_k])
+;
+""", 'const uint8 *b; uint32 n, *o, bs; void *to; unsigned int k; mv_k = k; ReadData(b, n, o, to, bs);',
+     'block size <= 16 bytes (all call sites pass 4); input buffers below 4 GiB - 16 (above that the 32-bit offset sum in the bound test can wrap: outside the contract)'),
+    ('WriteData', r"""
+static void WriteData(uint8 * outBuf, uint32 * writeOffset, const void * copyFrom, uint32 blockSize)
+__CPROVER_requires(blockSize <= MV_MAXBLK && mv_outsize <= 0xFFFFFFFFul)
+__CPROVER_requires(__CPROVER_is_fresh(outBuf, mv_outsize) && __CPROVER_is_fresh(writeOffset, sizeof(uint32)) && __CPROVER_is_fresh(copyFrom, blockSize))
+__CPROVER_requires((unsigned long)*writeOffset + blockSize <= mv_outsize)
+__CPROVER_assigns(*writeOffset, __CPROVER_object_upto(outBuf + *writeOffset, blockSize))
+__CPROVER_ensures(*writeOffset == __CPROVER_old(*writeOffset) + blockSize)
+__CPROVER_ensures(mv_k < blockSize ==> outBuf[__CPROVER_old(*writeOffset) + mv_k] == ((const uint8 *)copyFrom)[mv_k])
+;
+""", 'uint8 *b; uint32 *o, bs; const void *from; unsigned int k; unsigned long sz; mv_k = k; mv_outsize = sz; WriteData(b, o, from, bs);',
+     'block size <= 16 bytes (all call sites pass the size of one scalar)'),
+    ('WillUnsignedAddOverflow', r"""
+static MBool WillUnsignedAddOverflow(uint32 v1, uint32 v2)
+__CPROVER_assigns()
+__CPROVER_ensures((__CPROVER_return_value != 0) == ((unsigned long)v1 + (unsigned long)v2 > 0xFFFFFFFFul))
+;
+""", 'uint32 a, b; WillUnsignedAddOverflow(a, b);', None),
+    ('IsTypeCodeVariableSize', r"""
+static MBool IsTypeCodeVariableSize(uint32 typeCode)
+__CPROVER_assigns()
+__CPROVER_ensures((__CPROVER_return_value == MFalse) == (typeCode == B_BOOL_TYPE || typeCode == B_DOUBLE_TYPE || typeCode == B_FLOAT_TYPE || typeCode == B_INT64_TYPE ||
+   typeCode == B_INT32_TYPE || typeCode == B_INT16_TYPE || typeCode == B_INT8_TYPE || typeCode == B_POINTER_TYPE || typeCode == B_POINT_TYPE || typeCode == B_RECT_TYPE))
+__CPROVER_ensures(__CPROVER_return_value == MFalse || __CPROVER_return_value == MTrue)
+;
+""", 'uint32 t; IsTypeCodeVariableSize(t);', None),
+]
+
+
+def mini_leaf_jobs():
+    """Leaves of the C MiniMessage codec (Route C, the real file, nothing injected): the bounds-checked cursor read that every
+    step of MMUnflattenMessage goes through, the cursor write of MMFlattenMessage, and the overflow / type-table helpers."""
+    J = []
+    src = inject(os.path.join(REPO, MM_C), [], [])
+    for fn, con, body, bound in MM_LEAVES:
+        J.append(Job('mm_' + fn, MM_PRE + con + src + '\nvoid h_main(void) { %s %s }\n' % (body, END), 'h_main', enforce=[fn], loops=False,
+                     klass='bounded' if bound else 'proved', bound=bound, functions=[(MM_C, fn)], timeout=600, split=0))
+    return J
+
+
 def jobs(tier):
     from props import c03
     # the C++ gateway's frame header parse against the documented header layout (shared with C03)
-    return codec.codec_jobs(tier, want=('layout', 'writer')) + micro_prim_jobs() + [j for j in c03.mgw_jobs() if j.name == 'mgw_GetBodySize']
+    return codec.codec_jobs(tier, want=('layout', 'writer')) + micro_prim_jobs() + mini_leaf_jobs() + [j for j in c03.mgw_jobs() if j.name == 'mgw_GetBodySize']
 
 
 def meta(tier):
     L = codec.lower()
     m = codec.meta_common(L)
     m.update(level='proof',
-             not_lowered=['Message::Flatten framing (Hashtable iteration)', 'lang/python3 (no verifier for Python here)', 'MiniMessage codec and the MicroMessage field-level writers UMAdd* (only its primitive readers/writers are covered)'],
+             not_lowered=['Message::Flatten framing (Hashtable iteration)', 'lang/python3 (no verifier for Python here)', 'MiniMessage.c above its leaves: MMFlattenMessage / MMUnflattenMessage / FlattenMMessageField / SwapCopy are not under contract (only the cursor read/write ReadData / WriteData, WillUnsignedAddOverflow and the type table IsTypeCodeVariableSize are); WillUnsignedMultiplyOverflow: contract tried (result == 64-bit product > 2^32-1), the 32-bit divide does not finish on any back end in 4 min, not registered', 'MicroMessage field-level writers UMAdd* (only its primitive readers/writers are covered)'],
              explanation='Each LittleEndianConverter::Export/Import overload and each DataFlattener Write* method is enforced against the documented byte layout '
                          '(exactly sizeof(T) bytes, byte k = bits 8k..8k+7) for all 2^(8*sizeof T) values; the writer contracts add cursor and frame conditions.')
     return m
